@@ -866,6 +866,11 @@ def chain_programs(b, p="bn128", r=0):
                                                                                 ["op", "sub", [2, 0]]]})
         progs.append({"cfg": {"p": p, "b": b, "r": r, "ignore": False}, "stmts": [["in", "priv", "I", a], ["op", "neg", [0]], ["op", "neg", [1]], ["op", "abs", [1]], ["op", "sub", [2, 0]]]})
         progs.append({"cfg": {"p": p, "b": b, "r": r, "ignore": False}, "stmts": [["in", "priv", "I", a], ["const", 0], ["op", "pow", [0, 1]], ["op", "add", [2, 2]], ["op", "mul", [3, 0]], ["op", "val", [2]]]})
+    # shifts by plain amounts up to and beyond the width of the field (limbs of big integers, packing at high offsets: hi << 256),
+    # result used in a product and compared
+    for k in list(range(0, 40, 3)) + list(range(240, 330)) + list(range(370, 400)) + [448, 511, 512, 513, 1000, 1024]:
+        for a in (3, -5):
+            progs.append({"cfg": {"p": p, "b": b, "r": r, "ignore": False}, "stmts": [["in", "priv", "I", a], ["const", k], ["op", "lshift", [0, 1]], ["op", "mul", [2, 0]], ["op", "eq", [2, 0]]]})
     # bit lists with plain and secret entries in every arrangement (public fields packed next to secret ones), then used:
     # squared, revealed, compared with a secret
     import itertools
